@@ -12,7 +12,17 @@ func c08Specs(tier string) []*Spec {
 		specs = append(specs, &Spec{ID: "C08", Name: name, Cfg: cfg, Keys: keys, Vals: bs("x", ""), MaxDepth: depth, MaxMaint: maint,
 			Alphabet: a.Ops, Oracles: []Oracle{oracleIter(b)}})
 	}
+	// the empty key is a legal key (the smallest one)
+	addEmpty := func(name string, cfg Cfg, depth int) {
+		ks := [][]byte{{}, []byte("a")}
+		a := Alpha{Writes: true, Save: true, Rollback: true, Reopen: stdReopen, DelTo: true, LVFO: true, MaxVersions: 3}
+		b := [][]byte{nil, {}, {0x00}, []byte("a"), []byte("b")}
+		specs = append(specs, &Spec{ID: "C08", Name: name, Cfg: cfg, Keys: ks, Vals: bs("x", ""), MaxDepth: depth, MaxMaint: 1,
+			Alphabet: a.Ops, Oracles: []Oracle{oracleIter(b)}})
+	}
 	if tier == "quick" {
+		addEmpty("emptykey/default/d4", defaultCfg, 4)
+		addEmpty("emptykey/nofast/d4", Cfg{Fast: false}, 4)
 		add("default/d4", defaultCfg, 4, 1, bounds)
 		add("nofast/d4", Cfg{Fast: false}, 4, 1, small)
 		add("cache3/d4", Cfg{Fast: true, Cache: 3}, 4, 1, small)
@@ -21,6 +31,8 @@ func c08Specs(tier string) []*Spec {
 		add("leveldb/d3", Cfg{Fast: true, Backend: "leveldb"}, 3, 1, small)
 		return specs
 	}
+	addEmpty("emptykey/default/d6", defaultCfg, 6)
+	addEmpty("emptykey/nofast/d5", Cfg{Fast: false}, 5)
 	add("default/d6", defaultCfg, 6, 2, bounds)
 	add("nofast/d5", Cfg{Fast: false}, 5, 2, bounds)
 	add("cache3/d5", Cfg{Fast: true, Cache: 3}, 5, 2, small)
